@@ -26,7 +26,8 @@ def requirements(tier):
     k = 1 if tier == "quick" else 15
     return {"min_counters": {"first_hour_twin_comparisons": 60 * k, "slots_compared_with_twin": 3000 * k, "interior_window_checks": 40 * k,
                              "pairs_checked": 1500 * k, "outside_or_naive_refused": 30 * k, "inside_dates_accepted": 25 * k},
-            "required_classes": ["multi_timezone", "job_shared_by_2_patterns", "change_link", "change_list", "change_num", "first_other_tz"]}
+            "required_classes": ["multi_timezone", "job_shared_by_2_patterns", "change_link", "change_list", "change_num", "first_other_tz",
+                                 "dst_switch_inside_period", "second_simulation_on_the_system"]}
 
 
 def run_case(case):
@@ -36,6 +37,19 @@ def run_case(case):
     if case["idx"] % 8 == 5:
         from .c17 import builder_spec
         spec0 = builder_spec(rnd)
+    dst_case = case["idx"] % 9 == 4 and spec0 is None
+    if dst_case:
+        # every pattern in one daylight-saving zone, starting a few hours before the spring switch; the date is taken after the switch
+        # and the change list re-links the pattern (so its own local series is cut at the date)
+        spec0 = gen.rand_spec(rnd, case["tier"], jobless_ok=False)
+        zone, start_ = rnd.choice([("Europe/Paris", "2025-03-29T20:00:00"), ("America/New_York", "2025-03-08T21:00:00"), ("Europe/London", "2025-03-29T19:00:00")])
+        for n_, o_ in spec0["objects"].items():
+            if o_["cls"] == "Country":
+                o_["params"]["timezone"] = ["tz", zone]
+            if o_["cls"] == "UsagePattern":
+                hs = o_["params"]["hourly_usage_journey_starts"]
+                ln = max(len(hs[1]), 24)
+                o_["params"]["hourly_usage_journey_starts"] = ["h", [rnd.choice(gen.START_VALUES[2:]) for _ in range(ln)], start_, "dimensionless"]
     h = Hist(rnd, case["tier"], spec=spec0)
     C = {k: 0 for k in ("first_hour_twin_comparisons", "slots_compared_with_twin", "interior_window_checks", "pairs_checked",
                         "outside_or_naive_refused", "sim_refused_valid_change", "twin_refused", "build_failed", "hourly_values_window_checked",
@@ -45,9 +59,29 @@ def run_case(case):
         C["build_failed"] = 1
         return {"counters": C, "classes": sorted(classes), "violations": []}
     sysm = h.system
+    if case["idx"] % 4 == 1:
+        # a first what-if, created, toggled and reset: the simulation under test is then the second one on this system
+        try:
+            ch0 = sim.rand_change_list(rnd, h.spec, h.objs, no_hourly=True)
+            m0 = E.ModelingUpdate(sim.to_library_changes(ch0, h.objs), sim.pick_date(rnd, h.objs, h.spec, rnd.choice(["first", "interior"])))
+            m0.set_updated_values(); m0.reset_values()
+            classes.add("second_simulation_on_the_system"); C["second_simulations"] = C.get("second_simulations", 0) + 1
+        except Exception:
+            pass
     dk = rnd.choice(DATE_KINDS) if case["idx"] % 3 else "interior_all_active"
     changes = sim.rand_change_list(rnd, h.spec, h.objs, no_hourly=(case["idx"] % 3 == 0))
-    if case["idx"] % 7 == 3:
+    if dst_case and not h.build_error:
+        from datetime import timedelta
+        ups_ = h.spec["objects"][h.spec["system"]]["params"]["usage_patterns"][1]
+        up_ = rnd.choice(ups_)
+        devs = [d for d, o_ in h.spec["objects"].items() if o_["cls"] == "Device"]
+        steps_ = h.spec["objects"][h.spec["objects"][up_]["params"]["usage_journey"][1]]["params"]["uj_steps"][1]
+        changes = [rnd.choice([{"obj": up_, "attr": "devices", "value": ["refs", rnd.sample(devs, rnd.randint(1, len(devs)))]},
+                               {"obj": h.spec["objects"][up_]["params"]["usage_journey"][1], "attr": "uj_steps", "value": ["refs", list(reversed(steps_)) + steps_[:1]]}])]
+        first_ = min(h.objs[u].utc_hourly_usage_journey_starts.value.index.min() for u in ups_).to_pydatetime()
+        dk = "interior_all_active"; classes.add("dst_switch_inside_period")
+        dst_date = first_ + timedelta(hours=rnd.randint(9, 20))
+    if case["idx"] % 7 == 3 and not dst_case:
         # a date that certainly belongs to the modelled period: the first hour of a pattern whose (unchanged) starts feed the
         # changed input's descendants - numeric change on a job of that pattern
         ups = [u for u in h.spec["objects"][h.spec["system"]]["params"]["usage_patterns"][1] if gen.jobs_of_up(h.spec, u)]
@@ -67,6 +101,8 @@ def run_case(case):
         date = d0.astimezone(timezone(timedelta(hours=rnd.choice([9, -5, 5.5, 12.75]))))
     elif dk == "first_of_dependent_pattern":
         date = dep_date
+    elif dst_case and not h.build_error:
+        date = dst_date
     else:
         date = sim.pick_date(rnd, h.objs, h.spec, dk)
         if date is None:
